@@ -165,8 +165,13 @@ def _workload(case: dict, paths: dict, max_workers, out: dict) -> None:
 
 
 def _cov_problems(samples: np.ndarray, cov: np.ndarray, err: np.ndarray, label: str) -> str | None:
+    with np.errstate(all="ignore"):
+        if not orc.allclose_nan(err, np.sqrt(np.diag(cov)), rtol=1e-12, atol=0):
+            return f"{label}: error != sqrt(diag(covariance)) (error {np.asarray(err).tolist()}, diag {np.diag(cov).tolist()})"
     if not np.all(np.isfinite(samples)):
-        return None  # NaN/inf samples: covariance is NaN by construction, nothing to compare
+        # NaN/inf samples: the covariance formula itself is ill-defined (rows/columns of the
+        # affected bins are NaN); error/diagonal consistency was checked above
+        return None
     ref = orc.jackknife_cov(samples)
     if not orc.allclose_nan(cov, ref, rtol=1e-9, atol=1e-12 * max(1.0, float(np.abs(ref).max(initial=0.0)))):
         return f"{label}: covariance is not (N-1)/N * sum (x_k-mean)(x_k-mean)^T"
@@ -201,9 +206,9 @@ def evaluate(case: dict, ref: dict, got: dict, cache_ref: dict) -> tuple[dict | 
             if np.isnan(data).any() or np.isnan(samples).any():
                 probes["nan_bins"] = 1
             g = got[f"{kind}.sample"][i]
-            if not orc.allclose_nan(g["data"], data):
+            if not orc.close_where_ref_finite(g["data"], data):
                 return sig(f"{kind}.sample", "value_wrong"), f"{kind}[{i}].sample().data {g['data']} != {data}", probes
-            if not orc.allclose_nan(g["samples"], samples):
+            if not orc.close_where_ref_finite(g["samples"], samples):
                 perm = _is_row_permutation(g["samples"], samples)
                 return (
                     sig(f"{kind}.sample", "samples_permuted" if perm else "samples_wrong"),
@@ -225,6 +230,7 @@ def evaluate(case: dict, ref: dict, got: dict, cache_ref: dict) -> tuple[dict | 
             nz0_s = cs / np.sqrt(dz[None, :] ** 2)
         probes["redshiftdata_with_auto"] = 1
         combos = [("nz", nz_d, nz_s), ("nz0", nz0_d, nz0_s)]
+        ud = us = None
         if "auto_unk" in ref:
             try:
                 ud, us = orc.loo_corrfunc(ref["auto_unk"][i])
@@ -235,9 +241,28 @@ def evaluate(case: dict, ref: dict, got: dict, cache_ref: dict) -> tuple[dict | 
                 with np.errstate(all="ignore"):
                     combos.append(("nz2", cd / np.sqrt(dz**2 * ad * ud), cs / np.sqrt(dz[None, :] ** 2 * as_ * us)))
                     combos.append(("nz3", cd / np.sqrt(dz**2 * ud), cs / np.sqrt(dz[None, :] ** 2 * us)))
+        # an autocorrelation amplitude that is zero up to rounding noise (1e-16) makes the
+        # quotient ill-conditioned: different summation orders give different garbage.
+        # Those elements are excluded from the comparison (not a defect of either side).
+        def well(x):  # finite and not zero-up-to-rounding
+            return np.isfinite(x) & (np.abs(x) > 1e-6)
+
+        ok_d, ok_s = well(ad), well(as_)
+        if ud is not None:
+            ok_d2, ok_s2 = ok_d & well(ud), ok_s & well(us)
+            ok_d3, ok_s3 = well(ud), well(us)
+        masks = dict(nz=(ok_d, ok_s), nz0=(np.ones_like(ok_d), np.ones_like(ok_s)))
+        if len(combos) > 2:
+            masks["nz2"] = (ok_d2, ok_s2)
+            masks["nz3"] = (ok_d3, ok_s3)
         for name, d_, s_ in combos:
             g = got[name][i]
-            if not orc.allclose_nan(g["data"], d_) or not orc.allclose_nan(g["samples"], s_):
+            md, ms = masks[name]
+            gd, gs = np.where(md, g["data"], 0.0), np.where(ms, g["samples"], 0.0)
+            d_, s_ = np.where(md, d_, 0.0), np.where(ms, s_, 0.0)
+            if not ms.all() or not md.all():
+                probes["ill_conditioned_elements_masked"] = 1
+            if not orc.close_where_ref_finite(gd, d_) or not orc.close_where_ref_finite(gs, s_):
                 return sig("RedshiftData.from_corrfuncs", "samples_wrong", which=name), f"{name}[{i}] differs from w_sp/sqrt(dz^2 w_ss w_pp) applied to leave-one-out samples", probes
     # (c) HistData: independent per-patch histograms from the raw cache
     counts = ref["hist.per_patch"]
